@@ -4,8 +4,9 @@ SHAPES = {
     # file-like objects handed to the library (trusted functional model, DESIGN 2.3)
     "OutStream": {"__class__": "Stream", "data": "bytes", "pos": "int", "eof_hit": "bool",
                   "seekable": "bool", "readable": "bool"},
-    "InStream": {"__class__": "Stream", "data": "bytes", "pos": "int", "eof_hit": "bool",
-                 "seekable": "bool", "readable": "bool"},
+    # `rem` is the ghost "what is still to be read" (data[pos:]), maintained by the model
+    "InStream": {"__class__": "Stream", "data": "bytes", "pos": "int", "rem": "bytes",
+                 "eof_hit": "bool", "seekable": "bool", "readable": "bool"},
     "BinaryEncoder": {"_fo": "OutStream"},
     "BinaryDecoder": {"fo": "InStream", "_block_count": "int"},
 }
